@@ -308,6 +308,17 @@ def attach(ctx, origin="insitu"):
         check_state(ctx, self, f"trim_fragment({where},{int(bool(keep_start))},{int(bool(keep_end))})")
         if "Cut" not in result.tags:
             ctx.count("note:trimmed-fragment-without-Cut-tag")
+        # "cut a terminal fragment to the bait": on the side that is not kept the span stops at the bait
+        trace = list(sh["trace"])
+        case = {"kind": "trace", "rows": [dump_row(r) for r in sh["src"]], "bait": dump_row(sh["bait0"]), "trace": trace, "origin": sh["origin"]}
+        if where in ("first", "only") and not keep_start:
+            ctx.count("cut-reaches-bait:start-side")
+            if self.start < self.bait.start:
+                ctx.violation("cut-does-not-reach-bait:start", f"after trim_fragment of the first row (start not kept) the span starts at {self.start}, {self.bait.start - self.start} bp before the bait {self.bait}; trace={trace} rows={[str(r) for r in self.rows][:6]}", case)
+        if where in ("last", "only") and not keep_end:
+            ctx.count("cut-reaches-bait:end-side")
+            if self.end > self.bait.end:
+                ctx.violation("cut-does-not-reach-bait:end", f"after trim_fragment of the last row (end not kept) the span ends at {self.end}, {self.end - self.bait.end} bp after the bait {self.bait}; trace={trace} rows={[str(r) for r in self.rows][:6]}", case)
         return True
 
     contracts.attach(OverlapResult, "trim_fragment", post=after_trim, on_call=_enter, on_exc=_abort, label="C18.trim_fragment")
